@@ -69,8 +69,49 @@ def rust_replay(ops_path, outdir):
     return rc == 0
 
 
+# ---------------------------------------------------------------- python kind (pure-Python map)
+
+PY_H = os.path.join(ROOT, "harness", "py", "pyharness.py")
+PY_ENV = dict(ENV, BPT_REPO=REPO, PYTHONDONTWRITEBYTECODE="1", PYTHONHASHSEED="0")
+
+
+def _py(args, timeout):
+    import sys
+    try:
+        p = subprocess.run([sys.executable, PY_H] + args, env=PY_ENV, stdout=subprocess.PIPE, stderr=subprocess.STDOUT, timeout=timeout,
+                           text=True, errors="replace", preexec_fn=_limit)
+        return p.returncode, p.stdout
+    except subprocess.TimeoutExpired:
+        return 124, "<timeout after %ss>" % timeout
+
+
+def py_build():
+    # nothing to build: the harness imports /repo/python/bplustree/bplus_tree.py directly on every run
+    ok = os.path.exists(os.path.join(REPO, "python", "bplustree", "bplus_tree.py"))
+    return ok, "" if ok else "python/bplustree/bplus_tree.py not found"
+
+
+def py_gen(suite, seed, budget, outdir, corpus_lines):
+    args = ["gen", suite, "--seed", str(seed), "--out", outdir]
+    for k, v in budget.items():
+        args += ["--" + k, str(v)]
+    if corpus_lines:
+        cp = os.path.join(outdir, "corpus.txt")
+        with open(cp, "w") as f:
+            f.write("\n".join(corpus_lines) + "\n")
+        args += ["--corpus", cp]
+    rc, out = _py(args, 7200)
+    return {"ok": rc == 0, "log": "harness exit status %s\n%s" % (rc, out)}
+
+
+def py_replay(ops_path, outdir):
+    rc, out = _py(["replay", ops_path, "--out", outdir], 300)
+    return rc == 0
+
+
 KINDS = {
     "rust": {"build": rust_build, "gen": rust_gen, "replay": rust_replay},
+    "py": {"build": py_build, "gen": py_gen, "replay": py_replay},
 }
 
 # ---------------------------------------------------------------- measurement
@@ -165,7 +206,36 @@ def measure_tree(kind):
     return measure
 
 
+def measure_py(kind):
+    def nontrivial(lines, outs):
+        grew = any(l == "P dump" and " h=0 " not in o and o.startswith("cap=") for l, o in zip(lines, outs))
+        deleted = any(l.startswith("P del") and o == "ok" for l, o in zip(lines, outs))
+        if kind == "range":
+            q = [(l, o) for l, o in zip(lines, outs) if l.split()[1:2] and l.split()[1] in ("items", "keys", "values", "range") and len(l.split()) == 4 and l.split()[2:] != ["_", "_"]]
+            return grew and any(o == "[]" for _, o in q) and any(o not in ("[]", "") for _, o in q)
+        if kind == "deep":
+            return any(l == "P leafcount" and o.isdigit() and int(o) >= 1000 for l, o in zip(lines, outs))
+        return grew and deleted
+
+    def measure(ops, impl, cases):
+        d, nt, samples = _distinct(cases, ops, nontrivial, impl)
+        caps = {}
+        for l in ops:
+            w = l.split()
+            if len(w) >= 3 and w[0] == "P" and w[1] in ("new", "fromsorted"):
+                caps[w[2]] = caps.get(w[2], 0) + 1
+        return {"distinct_cases": d, "distinct_nontrivial": nt, "samples": samples, "op_histogram": _hist(ops),
+                "capacities": dict(sorted(caps.items(), key=lambda kv: int(kv[0]))[:40]),
+                "raises": sum(1 for o in impl if o == "raise"), "keyerrors": sum(1 for o in impl if o == "keyerror"),
+                "dumps_compared": sum(1 for l in ops if l == "P dump")}
+    return measure
+
+
 SUITES = {
+    "py-ops": {"measure": measure_py("ops")},
+    "py-range": {"measure": measure_py("range")},
+    "py-deep": {"measure": measure_py("deep")},
+    "py-exh": {"measure": measure_py("ops")},
     "arena": {"measure": measure_arena},
     "tree-ops": {"measure": measure_tree("ops")},
     "tree-iter": {"measure": measure_tree("iter")},
